@@ -354,6 +354,9 @@ func (x *lRun) exec(op lOp) (res TxResult, amt *big.Int) {
 		v := relOf(op.Rel, p.Custody)
 		amt = v.BigInt()
 		return w.Deliver(&perptypes.MsgClose{Creator: creator, Id: p.Id, Amount: v}), amt
+	case "steer": // also reachable through exec for drivers that embed lRun (C15 C18 C19)
+		x.steer(op)
+		return TxResult{}, nil
 	case "lev_add_collateral": // C06 only (harness/c06_trace_test.go)
 		return c06AddCollateral(x, op)
 	case "donate":
